@@ -59,7 +59,7 @@ def explore(fam, coded, tier):
         cfg = os.path.join(C.scratch(), os.path.basename(src))
         with open(cfg, "w") as f:
             f.write(txt)
-    rc, out = C.run_tlc("ExprStore.tla", cfg=cfg, timeout=1500 if tier == "thorough" else 140)
+    rc, out = C.run_tlc("ExprStore.tla", cfg=cfg, timeout=5400 if tier == "thorough" else 1200)
     st = C.tlc_stats(out)
     if rc != 0 or st is None or "No error has been found" not in out:
         raise C.MachineryError(f"TLC on {os.path.basename(src)} failed (rc={rc}): the store model violates its own "
